@@ -1,0 +1,32 @@
+//go:build verif
+
+package client
+
+import (
+	"sort"
+
+	"github.com/truora/minidyn/core"
+)
+
+// VerifTable returns the internal table (nil if it does not exist). It takes
+// no lock: callers use it only while no client call is in flight.
+func (fd *Client) VerifTable(name string) *core.Table {
+	return fd.tables[name]
+}
+
+// VerifTableNames returns the names of the client's tables, sorted.
+func (fd *Client) VerifTableNames() []string {
+	names := make([]string, 0, len(fd.tables))
+	for n := range fd.tables {
+		names = append(names, n)
+	}
+
+	sort.Strings(names)
+
+	return names
+}
+
+// VerifFailureActive reports whether a failure condition is configured.
+func (fd *Client) VerifFailureActive() bool {
+	return fd.forceFailureErr != nil
+}
